@@ -32,7 +32,7 @@ import (
 //
 //verif:fieldfn Wrapper handler
 func verifSpec_handler(payload any) error {
-	verif.HavocExcept("H.client.proxy.Wrapper.", "H.client.proxy.Manager.", "ChClosed@H.client.proxy.Wrapper.", "map_LstringR_Pclient.proxy.Wrapper", "map_LstringR_pkg.config.v1.ProxyConfigurer", "H.client.event.", "H.pkg.msg.")
+	verif.HavocExcept("H.client.proxy.Wrapper.", "H.client.proxy.Manager.", "ChClosed@H.client.proxy.Wrapper.", "map_LstringR_Pclient.proxy.Wrapper", "map_LstringR_pkg.config.v1.ProxyConfigurer", "H.client.event.", "H.pkg.msg.", "H.pkg.config.v1.")
 	return verif.Any[error]()
 }
 
